@@ -105,6 +105,19 @@ func VP_C08_Reset() {
 		}
 		zzvp.RemoveAll(w + "/" + d)
 	}
+	// staged changes that belong to neither commit: a new file that sorts after (or before) every committed path, a removal
+	switch zzvp.Choose(1 + 3*zzvp.Param("stagedextra", 1)) {
+	case 1:
+		zzvp.WriteFile(w+"/zzz", []byte("Z"))
+		vpOK(zzvp.Run("add", "zzz"))
+	case 2:
+		zzvp.WriteFile(w+"/ 0", []byte("Z"))
+		vpOK(zzvp.Run("add", " 0"))
+	case 3:
+		if zzvp.Exists(w + "/" + f1) {
+			vpOK(zzvp.Run("rm", f1))
+		}
+	}
 	shown := vpReflogShort(zzvp.Run("reflog").Out)
 	// argument: valid position, out-of-range position, or malformed text
 	var arg string
